@@ -14,11 +14,12 @@
     [rule_ok r]    : types as above, rule days in range (J 1..365, n 0..365, M 1..12 . 1..5 . 0..6),
                      switch times strictly below one week in absolute value.
     [hdr_layout h d] : the six counts of header h are the big-endian words at offsets 20..43 of d. *)
-From Coq Require Import ZArith List Bool.
+From Coq Require Import ZArith List Bool String.
 From V Require Import Base.Int Base.IO Model.TzParser Model.TzRule Model.TzLookup.
 From V Require Import Spec.TzWriter.
 From V Require Import Proofs.TzCommon Proofs.TzEval Proofs.TzGrammar Proofs.TzRoundtrip Proofs.TzWriterRoundtrip Proofs.TzWriterFull Proofs.TzWriterBytes Proofs.C16.
 From V Require Import Proofs.TzFooterSpec.
+From V Require Import Model.C16 Proofs.C16Ops Proofs.TzAcceptSpec Proofs.TzAccept Proofs.TzAcceptFile.
 Import ListNotations.
 Open Scope Z_scope.
 
@@ -269,3 +270,236 @@ Example C16_unrepaired_addition_traps :
   add_i64 (i64_max - 10) 3600 = Panic /\ saturating_add_i64 (i64_max - 10) 3600 = i64_max.
 Proof. exact example_unrepaired_add_traps. Qed.
 Print Assumptions C16_unrepaired_addition_traps.
+
+(** *** Every op of the dispatcher Model/C16.v [run] (table: coverage/OPS_THEOREMS_C16.md) *)
+
+(* which model function answers which op; [sh_*] are the argument decoders of Proofs/C16Ops.v (an
+   argument list of another shape is BADARGS), [at_val] / [atlocal_val] encode the answer of
+   [find_local_time_type] / [find_local_time_type_from_local], [rule_val] the rule of the zone *)
+Theorem C16_dispatch : forall args,
+  run (B"tz.parse") args = sh_bytes (fun b => val_of_rr enc_zone (parse b)) args /\
+  run (B"tz.rule") args = sh_rule (fun s ext => val_of_rr rule_val (zone_of_tz_string s ext)) args /\
+  run (B"tz.at") args = sh_bytes_list arg_i64 (fun b ts => lookups (parse b) ts at_val) args /\
+  run (B"tz.rat") args = sh_rule_list arg_i64 (fun s ext ts => lookups (zone_of_tz_string s ext) ts at_val) args /\
+  run (B"tz.atlocal") args = sh_bytes_list arg_ndt (fun b ns => lookups (parse b) ns atlocal_val) args /\
+  run (B"tz.ratlocal") args = sh_rule_list arg_ndt (fun s ext ns => lookups (zone_of_tz_string s ext) ns atlocal_val) args.
+Proof. exact dispatch. Qed.
+Print Assumptions C16_dispatch.
+
+(* tz.parse: the encoded zone of [parse], well formed, or the name of [parse]'s error; never PANIC *)
+Theorem C16_op_parse : forall b, data_ok b ->
+  (exists z, parse b = Val (Ok z) /\ zone_wf z /\ run (B"tz.parse") [VStr b] = enc_zone z) \/
+  (exists e, parse b = Val (Err e) /\ run (B"tz.parse") [VStr b] = enc_err e).
+Proof. exact op_parse. Qed.
+Print Assumptions C16_op_parse.
+
+(* Zone::from_tz_string of the hook (the function behind tz.rule, tz.rat, tz.ratlocal): never traps;
+   the accepted zone is well formed, has no transition and no leap record, its types are the types
+   of the rule [from_tz_string] returned and that rule is its footer rule *)
+Theorem C16_zone_of_tz_string : forall s ext, data_ok s ->
+  postr (zone_of_tz_string s ext)
+        (fun z => zone_wf z /\ exists r, from_tz_string s ext = Val (Ok r) /\ rule_ok r /\
+                                         z = mk_tz [] (rule_types r) [] (Some r)).
+Proof. exact zone_of_tz_string_spec. Qed.
+Print Assumptions C16_zone_of_tz_string.
+Theorem C16_op_rule : forall s e ext, data_ok s -> arg_flag e = Some ext ->
+  (exists r, from_tz_string s ext = Val (Ok r) /\ rule_ok r /\
+             zone_of_tz_string s ext = Val (Ok (mk_tz [] (rule_types r) [] (Some r))) /\
+             run (B"tz.rule") [VStr s; e] = enc_rule r) \/
+  (exists err, zone_of_tz_string s ext = Val (Err err) /\ run (B"tz.rule") [VStr s; e] = enc_err err).
+Proof. exact op_rule. Qed.
+Print Assumptions C16_op_rule.
+
+(* the four lookup ops ([lookup_answers]): the reader's error name, or, on the accepted well-formed
+   zone, one answer per decoded query, each the encoded value or the error name of the lookup
+   function ([at_answered] / [atlocal_answered]: the lookup returned, it did not trap) *)
+Theorem C16_op_at : forall b vs ts, data_ok b -> all_some arg_i64 vs = Some ts ->
+  lookup_answers (parse b) ts at_val at_answered (run (B"tz.at") [VStr b; VTup vs]).
+Proof. exact op_at. Qed.
+Print Assumptions C16_op_at.
+Theorem C16_op_rat : forall s e ext vs ts, data_ok s -> arg_flag e = Some ext -> all_some arg_i64 vs = Some ts ->
+  lookup_answers (zone_of_tz_string s ext) ts at_val at_answered (run (B"tz.rat") [VStr s; e; VTup vs]).
+Proof. exact op_rat. Qed.
+Print Assumptions C16_op_rat.
+Theorem C16_op_atlocal : forall b vs ns, data_ok b -> all_some arg_ndt vs = Some ns ->
+  lookup_answers (parse b) ns atlocal_val atlocal_answered (run (B"tz.atlocal") [VStr b; VTup vs]).
+Proof. exact op_atlocal. Qed.
+Print Assumptions C16_op_atlocal.
+Theorem C16_op_ratlocal : forall s e ext vs ns, data_ok s -> arg_flag e = Some ext -> all_some arg_ndt vs = Some ns ->
+  lookup_answers (zone_of_tz_string s ext) ns atlocal_val atlocal_answered (run (B"tz.ratlocal") [VStr s; e; VTup vs]).
+Proof. exact op_ratlocal. Qed.
+Print Assumptions C16_op_ratlocal.
+
+(** *** Acceptance is complete: the reader accepts exactly the grammar Proofs/TzAcceptSpec.v
+
+    The grammar is a decidable predicate on the bytes, written by offsets and plain recursion on
+    byte lists, not with the reader's cursor code.  [parse] = [select] (headers and section
+    lengths, C16_parse_select) followed by [finish] (the decoder of the selected block). *)
+Theorem C16_parse_select : forall data,
+  parse data = let+ '(st, footer) := select data in finish st footer.
+Proof. exact parse_select. Qed.
+Print Assumptions C16_parse_select.
+
+(* one record of the local time type table, for ANY 6 bytes and ANY designation table: the answer
+   of the reader's record decoder is [ltt_res] (error included), and it is a value exactly when
+   [ltt_rec_ok]: offset other than i32::MIN, isdst byte 0 or 1, designation index inside the table,
+   a NUL at or after the index inside the table, designation empty or 3..7 characters of [0-9A-Za-z+-] *)
+Theorem C16_ltt_record : forall names r, List.length r = 6%nat -> Forall byte r -> zlen names <= u32_max ->
+  parse_ltt names (zlen names) r = Val (ltt_res names r) /\
+  (forall l, ltt_res names r = Ok l <-> ltt_rec_ok names r = true /\ l = ltt_of_rec names r).
+Proof. exact (fun names r H1 H2 H3 => conj (parse_ltt_val names r H1 H2 H3) (ltt_res_ok names r)). Qed.
+Print Assumptions C16_ltt_record.
+
+(* TimeZone::new for any tables with i64 / i32 leap fields: accepted exactly when there is a type,
+   every transition points at a type, transition times increase strictly, the first leap record is
+   at a non-negative time with correction +1 or -1, later records are at least 2419199 s apart
+   with corrections differing by exactly one, and the footer rule agrees with the last transition *)
+Theorem C16_tz_new_iff : forall trs tys lps rule z, Forall leap_ok lps ->
+  tz_new trs tys lps rule = Val (Ok z) <->
+  tys <> [] /\ tables_ok (zlen tys) trs lps = true /\
+  footer_consistent (mk_tz trs tys lps rule) = true /\ z = mk_tz trs tys lps rule.
+Proof. exact tz_new_iff. Qed.
+Print Assumptions C16_tz_new_iff.
+
+(* the decoder of a data block, for every block the header stage can hand over ([blk_hyps]: section
+   lengths as announced by the counts, 4-byte times with a version-1 header or 8-byte times with a
+   version-2/3 header): accepted exactly when [block_ok] (every type record [ltt_rec_ok], every UT
+   indicator 1 beside a standard indicator that is present and not 0, [tables_ok]), the footer
+   stage accepts, and the footer rule agrees with the last transition; the zone is the one cut out
+   of the sections.
+   PARTIAL: the footer stage is the reader's own [footer_step] (text checks + from_tz_string) and
+   [footer_consistent] is the reader's own rule evaluation; C16_tzif_v1_accepts_iff below has
+   neither (version 1 has no footer), C16_tzif_v23_accepts_iff_partial spells out the text checks. *)
+Theorem C16_block_accepts_iff_partial : forall st ts footer z, blk_hyps st ts ->
+  finish st footer = Val (Ok z) <->
+  block_ok st = true /\
+  exists rule, footer_step (h_version (st_header st)) footer = Val (Ok rule) /\
+               footer_consistent (st_zone st rule) = true /\ z = st_zone st rule.
+Proof. exact finish_accepts. Qed.
+Print Assumptions C16_block_accepts_iff_partial.
+
+(* the two rejections, for every block: a type record with offset i32::MIN, or a designation index
+   with no NUL after it inside the table, makes the reader answer an error: the error of the first
+   refused record in file order (C16_block_first_bad_record), always InvalidTzFile or
+   LocalTimeType; the offset gives LocalTimeType (C16_ltt_record_min_offset), the missing NUL
+   InvalidTzFile (C16_ltt_record_unterminated) *)
+Theorem C16_block_rejects_min_offset : forall st ts footer r, blk_hyps st ts ->
+  In r (blk_ltt_recs (st_local_time_types st)) -> rec_utoff r = -2147483648 ->
+  exists e, finish st footer = Val (Err e) /\ (e = EInvalidTzFile \/ e = ELocalTimeType).
+Proof. exact finish_rejects_min_offset. Qed.
+Print Assumptions C16_block_rejects_min_offset.
+Theorem C16_block_rejects_unterminated : forall st ts footer r, blk_hyps st ts ->
+  In r (blk_ltt_recs (st_local_time_types st)) ->
+  has_nul (skipn (Z.to_nat (rec_idx r)) (st_names st)) = false ->
+  exists e, finish st footer = Val (Err e) /\ (e = EInvalidTzFile \/ e = ELocalTimeType).
+Proof. exact finish_rejects_unterminated. Qed.
+Print Assumptions C16_block_rejects_unterminated.
+Theorem C16_block_first_bad_record : forall st ts footer pre r post e, blk_hyps st ts ->
+  blk_ltt_recs (st_local_time_types st) = pre ++ r :: post ->
+  forallb (ltt_rec_ok (st_names st)) pre = true -> ltt_res (st_names st) r = Err e ->
+  finish st footer = Val (Err e).
+Proof. exact finish_first_bad_record. Qed.
+Print Assumptions C16_block_first_bad_record.
+Theorem C16_ltt_record_min_offset : forall names r, rec_utoff r = -2147483648 ->
+  (rec_dst r =? 0) || (rec_dst r =? 1) = true -> rec_idx r < zlen names ->
+  has_nul (skipn (Z.to_nat (rec_idx r)) names) = true -> ltt_res names r = Err ELocalTimeType.
+Proof. exact ltt_res_min_exact. Qed.
+Print Assumptions C16_ltt_record_min_offset.
+Theorem C16_ltt_record_unterminated : forall names r,
+  has_nul (skipn (Z.to_nat (rec_idx r)) names) = false -> ltt_res names r = Err EInvalidTzFile.
+Proof. exact ltt_res_no_nul. Qed.
+Print Assumptions C16_ltt_record_unterminated.
+
+(** *** Whole files *)
+
+(* which block is decoded: a version-1 file is exactly one header (version byte 0, counts fine) and
+   the block it announces, nothing after it; a version-2/3 file is a header with version byte '2'
+   or '3', its 32-bit block (only the lengths matter), a second header with version byte '2' or
+   '3' and the 64-bit block it announces inside the file; everything after it is the footer *)
+Theorem C16_select_iff : forall d st footer, data_ok d ->
+  select d = Val (Ok (st, footer)) <->
+  (v1_layout_ok d = true /\ st = state_at d 0 4 /\ footer = None) \/
+  (v23_layout_ok d = true /\ st = state_at d (off2 d) 8 /\ footer = Some (footer_of d)).
+Proof. exact select_iff. Qed.
+Print Assumptions C16_select_iff.
+
+(* version 1, COMPLETE: for every byte string, the reader accepts it as a version-1 file exactly
+   when the decidable grammar [tzif_v1_accepts] holds (magic, version byte 0, counts, exact file
+   length, every type record [ltt_rec_ok], indicators, type indices, strictly increasing
+   transition times, leap table), and the zone is [tzif_v1_zone]; no function of the reader occurs
+   in the predicate *)
+Theorem C16_tzif_v1_accepts_iff : forall d z, data_ok d ->
+  (parse d = Val (Ok z) /\ byte_at d 4 = 0) <-> (tzif_v1_accepts d = true /\ z = tzif_v1_zone d).
+Proof. exact v1_accepts_iff. Qed.
+Print Assumptions C16_tzif_v1_accepts_iff.
+
+(* version 2 / 3: layout, records, tables and footer text ([footer_text_ok]: valid UTF-8, first and
+   last byte a newline, trimmed text without leading ':' and without NUL) are explicit.
+   PARTIAL: for a non-blank footer the TZ string is judged by the reader's own [from_tz_string]
+   ([footer_rule_res]) and its agreement with the last transition by [footer_consistent] (the
+   reader's rule evaluation); a grammar of the accepted TZ strings as an independent predicate,
+   and the agreement check against the calendar oracle, are what is missing
+   (C16_footer_agrees_consistent gives the latter inside the premise of C05) *)
+Theorem C16_tzif_v23_accepts_iff_partial : forall d z, data_ok d ->
+  (parse d = Val (Ok z) /\ byte_at d 4 <> 0) <-> (tzif_v23_accepts d = true /\ z = tzif_v23_zone d).
+Proof. exact v23_accepts_iff. Qed.
+Print Assumptions C16_tzif_v23_accepts_iff_partial.
+
+(* all files: [parse] accepts exactly [tzif_accepts] and returns [tzif_zone]; partial only through
+   the version-2/3 footer rule as said above *)
+Theorem C16_tzif_accepts_iff_partial : forall d z, data_ok d ->
+  parse d = Val (Ok z) <-> tzif_accepts d = true /\ z = tzif_zone d.
+Proof. exact accepts_iff. Qed.
+Print Assumptions C16_tzif_accepts_iff_partial.
+
+(* the two rejections over all files: when the layout is fine ([selected]: the type records of the
+   block [st] are reached) and some type record of that block has utoff = i32::MIN, or a
+   designation index with no NUL after it inside the designation table, the file is outside the
+   grammar and [parse] answers an error, InvalidTzFile or LocalTimeType: the answer [ltt_res] of
+   the first refused record in file order (C16_tzif_first_bad_record; LocalTimeType for the offset
+   by C16_ltt_record_min_offset, InvalidTzFile for the missing NUL by C16_ltt_record_unterminated) *)
+Theorem C16_tzif_rejects_min_offset : forall d st r, data_ok d -> selected d st ->
+  In r (blk_ltt_recs (st_local_time_types st)) -> rec_utoff r = -2147483648 ->
+  tzif_accepts d = false /\ exists e, parse d = Val (Err e) /\ (e = EInvalidTzFile \/ e = ELocalTimeType).
+Proof. exact rejects_min_offset. Qed.
+Print Assumptions C16_tzif_rejects_min_offset.
+Theorem C16_tzif_rejects_unterminated : forall d st r, data_ok d -> selected d st ->
+  In r (blk_ltt_recs (st_local_time_types st)) ->
+  has_nul (skipn (Z.to_nat (rec_idx r)) (st_names st)) = false ->
+  tzif_accepts d = false /\ exists e, parse d = Val (Err e) /\ (e = EInvalidTzFile \/ e = ELocalTimeType).
+Proof. exact rejects_unterminated. Qed.
+Print Assumptions C16_tzif_rejects_unterminated.
+Theorem C16_tzif_first_bad_record : forall d st pre r post e, data_ok d -> selected d st ->
+  blk_ltt_recs (st_local_time_types st) = pre ++ r :: post ->
+  forallb (ltt_rec_ok (st_names st)) pre = true -> ltt_res (st_names st) r = Err e ->
+  parse d = Val (Err e).
+Proof. exact first_bad_record. Qed.
+Print Assumptions C16_tzif_first_bad_record.
+
+(* inhabited: the Guayaquil version-1 file and a version-2 file with leap records, both indicator
+   arrays and the footer <CET>-01:00:00<CEST>-02:00:00,M03.5.0/02:00:00,M10.5.0/03:00:00 satisfy the
+   grammar and are read as [tzif_zone]; a type with utoff = i32::MIN + 1 and an empty designation
+   is accepted *)
+Example C16_tzif_accept_examples :
+  (data_ok example_v1_file /\ tzif_v1_accepts example_v1_file = true /\ tzif_accepts example_v1_file = true /\
+   parse example_v1_file = Val (Ok (tzif_zone example_v1_file))) /\
+  (data_ok file_berlin_v2 /\ tzif_v23_accepts file_berlin_v2 = true /\ tzif_accepts file_berlin_v2 = true /\
+   parse file_berlin_v2 = Val (Ok (tzif_zone file_berlin_v2)) /\ tzif_zone file_berlin_v2 = example_berlin) /\
+  (data_ok file_min_plus_one_v1 /\ tzif_accepts file_min_plus_one_v1 = true /\
+   tzif_zone file_min_plus_one_v1 = mk_tz [] [mk_ltt (-2147483647) false None] [] None).
+Proof. exact accept_examples. Qed.
+Print Assumptions C16_tzif_accept_examples.
+(* the two rejections on concrete files (version 1, and in the 64-bit block of a version-2 file):
+   utoff = i32::MIN on a type whose designation index points at a NUL -> LocalTimeType;
+   designation table LMT\0EST\0EDT without final NUL, index 8 -> InvalidTzFile *)
+Example C16_tzif_reject_examples :
+  (data_ok file_min_offset_v1 /\ selected file_min_offset_v1 (state_at file_min_offset_v1 0 4) /\
+   tzif_accepts file_min_offset_v1 = false /\ parse file_min_offset_v1 = Val (Err ELocalTimeType)) /\
+  (data_ok file_min_offset_v2 /\ selected file_min_offset_v2 (state_at file_min_offset_v2 (off2 file_min_offset_v2) 8) /\
+   tzif_accepts file_min_offset_v2 = false /\ parse file_min_offset_v2 = Val (Err ELocalTimeType)) /\
+  (data_ok file_unterminated_v1 /\ selected file_unterminated_v1 (state_at file_unterminated_v1 0 4) /\
+   tzif_accepts file_unterminated_v1 = false /\ parse file_unterminated_v1 = Val (Err EInvalidTzFile)) /\
+  (data_ok file_unterminated_v2 /\ selected file_unterminated_v2 (state_at file_unterminated_v2 (off2 file_unterminated_v2) 8) /\
+   tzif_accepts file_unterminated_v2 = false /\ parse file_unterminated_v2 = Val (Err EInvalidTzFile)).
+Proof. exact reject_examples. Qed.
+Print Assumptions C16_tzif_reject_examples.
